@@ -3,9 +3,9 @@ EXTENDS SampleRate, Json
 CONSTANT D
 VARIABLE hist
 GInit == Init /\ hist = <<[act |-> "Init", r |-> dev, ev |-> ev]>>
-Step == IF act'[1] = "Change" THEN [act |-> "Change", r |-> act'[2], ev |-> ev'] ELSE [act |-> act'[1], ev |-> ev']
+Step == IF act'[1] \in {"Change", "ChangeA"} THEN [act |-> act'[1], r |-> act'[2], ev |-> ev'] ELSE [act |-> act'[1], ev |-> ev']
 GNext == Next /\ hist' = Append(hist, Step)
 GSpec == GInit /\ [][GNext]_<<vars, hist>>
 Bound == Len(hist) <= D
-Dump == (Len(hist) = D /\ evq = <<>> /\ gpc = "idle") => PrintT(<<"BEHAVIOUR", ToJson(hist)>>)
+Dump == (Len(hist) = D /\ evq = <<>> /\ gpc = "idle" /\ cpc = "idle") => PrintT(<<"BEHAVIOUR", ToJson(hist)>>)
 =============================================================================
